@@ -182,7 +182,7 @@ fn finish(a: CheckArgs, p: &PropSpec, st: Stats, t0: Instant) -> i32 {
     let mut exit = 0;
     let mut replay_path = None;
     if let Some(v) = st.violations.iter().min_by_key(|v| v.run_index) {
-        let path = minimise_and_persist(&a.prop, v);
+        let path = minimise_and_persist(&a, v);
         println!("VIOLATION property={} replay={}", a.prop, path);
         eprintln!("  clause {}:{} family {} run {} seed {}: {}", v.prop, v.clause, v.family, v.run_index, v.seed, v.detail);
         replay_path = Some(path);
@@ -366,7 +366,26 @@ fn shrink_candidates(p: &Program) -> Vec<Program> {
     v
 }
 
-pub fn minimise_and_persist(prop_checked: &str, v: &VioRec) -> String {
+/// re-run one run index the way a worker does (fresh process, forked child) and report whether the
+/// violation (prop, clause) shows there
+fn shows_in_fresh_worker(prop_checked: &str, tier: &str, batch_seed: u64, run_index: u64, family: Option<&str>, prop: &str, clause: &str) -> bool {
+    let Ok(exe) = std::env::current_exe() else { return false };
+    let mut cmd = std::process::Command::new(exe);
+    cmd.env("VERIF_TIER", tier).arg("worker").arg(prop_checked).arg(batch_seed.to_string()).arg(run_index.to_string()).arg((run_index + 1).to_string()).arg("0");
+    if let Some(f) = family {
+        cmd.arg(f);
+    }
+    let Ok(o) = cmd.output() else { return false };
+    let txt = String::from_utf8_lossy(&o.stdout);
+    let line = txt.lines().rev().find(|l| l.starts_with('{')).unwrap_or("");
+    match serde_json::from_str::<Stats>(line) {
+        Ok(st) => st.violations.iter().any(|x| x.prop == prop && x.clause == clause),
+        Err(_) => false,
+    }
+}
+
+pub fn minimise_and_persist(a: &CheckArgs, v: &VioRec) -> String {
+    let prop_checked: &str = &a.prop;
     let t0 = Instant::now();
     let prog0 = crate::gen::generate(&v.family, v.seed);
     let (prop, clause) = (v.prop.as_str(), v.clause.as_str());
@@ -374,7 +393,31 @@ pub fn minimise_and_persist(prop_checked: &str, v: &VioRec) -> String {
     let mut best_seed = v.seed;
     let mut best_rec = crate::exec::run_program(&best, best_seed, None, false);
     if find_vio(&best_rec, prop, clause).is_none() {
-        eprintln!("simcheck: harness error: violation did not reproduce in the coordinator");
+        // The run depends on something this process does not share with the worker's child - in
+        // practice the state of the allocator (a changed tree that compares addresses).  If it shows
+        // again in a fresh worker run, that is what the replay file asks for.
+        if shows_in_fresh_worker(prop_checked, &a.tier, a.seed, v.run_index, a.family.as_deref(), prop, clause) {
+            let file = serde_json::json!({
+                "property": prop_checked,
+                "finding": v.known,
+                "oracle_property": prop,
+                "clause": clause,
+                "detail": v.detail,
+                "family": v.family,
+                "original_seed": v.seed,
+                "original_run_index": v.run_index,
+                "replay_kind": "fresh-worker-run",
+                "batch_seed": a.seed,
+                "tier": a.tier,
+                "family_arg": a.family,
+                "not_minimised": "the violation shows in a fresh worker process but not when the run is repeated inside another process: it depends on process state outside the simulator (allocator addresses?)",
+            });
+            let _ = std::fs::create_dir_all("/verif/replays");
+            let path = format!("/verif/replays/{}-{}.json", prop_checked, v.seed);
+            std::fs::write(&path, serde_json::to_string_pretty(&file).unwrap()).expect("write replay");
+            return path;
+        }
+        eprintln!("simcheck: harness error: violation did not reproduce in the coordinator nor in a fresh worker process");
         std::process::exit(2);
     }
     // the unminimised run, as recorded by this (so far simulation-free) process - its first
@@ -544,7 +587,7 @@ pub fn selftest_determinism(runs: u64) -> i32 {
             }
         }
         total += n;
-        eprintln!("selftest-determinism: {prop}: {n} runs compared across two batches, {} in-process re-runs", a.determinism_rechecked + b.determinism_rechecked);
+        eprintln!("selftest-determinism: {prop}: {n} runs compared across two batches, {} fresh-process re-runs", a.determinism_rechecked + b.determinism_rechecked);
         bad += a.determinism_mismatch + b.determinism_mismatch;
     }
     println!("selftest-determinism: {total} runs compared, {bad} mismatches");
@@ -564,6 +607,28 @@ pub fn replay(path: &str) -> i32 {
         eprintln!("simcheck: {path} is not JSON");
         return 2;
     };
+    if f["replay_kind"].as_str() == Some("fresh-worker-run") {
+        let prop = f["oracle_property"].as_str().unwrap_or("");
+        let clause = f["clause"].as_str().unwrap_or("");
+        let checked = f["property"].as_str().unwrap_or(prop);
+        let shows = shows_in_fresh_worker(
+            checked,
+            f["tier"].as_str().unwrap_or("quick"),
+            f["batch_seed"].as_u64().unwrap_or(0),
+            f["original_run_index"].as_u64().unwrap_or(0),
+            f["family_arg"].as_str(),
+            prop,
+            clause,
+        );
+        return if shows {
+            println!("VIOLATION property={} replay={}", checked, path);
+            eprintln!("  clause {}:{}: {} (fresh worker run)", prop, clause, f["detail"].as_str().unwrap_or(""));
+            1
+        } else {
+            eprintln!("simcheck: the fresh worker run did not violate {prop}:{clause}");
+            0
+        };
+    }
     let prog: Program = match serde_json::from_value(f["program"].clone()) {
         Ok(p) => p,
         Err(e) => {
